@@ -455,7 +455,7 @@ def write_evidence(ctx, plug, prove_res, corr_list, search_res, violations, extr
               coverage=cov, assumptions=list(meta.get('assumptions', [])),
               wall_s=round(time.time() - ctx.t0, 1),
               violations=len([v for v in violations if not v.get('known')]))
-    p = os.path.join(VERIF, 'evidence' if re.match(r'C\d+$', ctx.pid) else '.work', ctx.pid + '.json')
+    p = os.path.join(os.environ.get('VERIF_EVIDENCE_DIR') or os.path.join(VERIF, 'evidence' if re.match(r'C\d+$', ctx.pid) else '.work'), ctx.pid + '.json')
     os.makedirs(os.path.dirname(p), exist_ok=True)
     json.dump(ev, open(p, 'w'), indent=1, default=str)
     return p
